@@ -93,7 +93,11 @@ def extract_function(cname, ptext, body, cxx_name):
             if not args:
                 locals_[m.group(1)] = ("StringEmpty", m.group(1).replace("SHCXX_", ""))
             elif re.match(r"^\w+$", args[0]):
-                locals_[m.group(1)] = ("StringFrom" + ("Len" if len(args) > 1 else ""), args[0])
+                if len(args) > 1:
+                    # (buffer, length): the documented conversion of a Fortran character argument passes the TRIMMED length L<name>
+                    locals_[m.group(1)] = ("StringFromLen" if args[1].strip() == "L" + args[0] else "StringFromWrongLen", args[0])
+                else:
+                    locals_[m.group(1)] = ("StringFrom", args[0])
             else:
                 row["unknown"].append(st)
             continue
@@ -123,7 +127,7 @@ def extract_function(cname, ptext, body, cxx_name):
         if m:
             row["result"] = (row["result"] + "|" if row["result"] else "") + "CStr:" + m.group(2)
             continue
-        if re.match(r"^(\w+)->(addr|idtor) = ", st) or st.startswith(("ShroudStrToArray", "std::string * SHCXX_rv = new std::string", "std::string *SHCXX_rv = new std::string")) \
+        if re.match(r"^(\w+)->[\w\.]+ = ", st) or st.startswith(("ShroudStrToArray", "std::string * SHCXX_rv = new std::string", "std::string *SHCXX_rv = new std::string")) \
                 or re.match(r"^(?:const )?[\w:<> ]+?[\*&]? ?SHC?X?X?_rv = ", st):
             row["result"] = (row["result"] + "|" if row["result"] else "") + "ResultGlue"
             continue
